@@ -45,6 +45,10 @@ fn strip(a: &Answer, n: usize) -> (Answer, Option<i64>) {
 
 /// `p.nq` includes one reserved query variable (the last) for the ticket.
 pub fn eval(p: &Program, ctx: &Ctx) -> CaseInfo {
+    eval_with(p, ctx, 60)
+}
+
+pub fn eval_with(p: &Program, ctx: &Ctx, max_ref: usize) -> CaseInfo {
     let n = p.nq - 1;
     let tv = n as VarId;
     let plain = Program { nq: n, body: p.body.clone() };
@@ -57,10 +61,10 @@ pub fn eval(p: &Program, ctx: &Ctx) -> CaseInfo {
         RefResult::Answers(a) => a,
         RefResult::Skip(w) => return CaseInfo { skip: Some(w), ..info },
     };
-    if reference.len() > 60 {
+    if reference.len() > max_ref {
         return CaseInfo::skip("too-many-answers");
     }
-    let out = run::run(&with_ticket, Mode::Dfs, Limits { max_answers: 500, budget: 3_000_000 });
+    let out = run::run(&with_ticket, Mode::Dfs, Limits { max_answers: 500.max(2 * max_ref), budget: 3_000_000.max(20_000 * max_ref as u64) });
     if ctx.want_sample {
         info.sample = Some(json!({ "program": desc, "iterator_order(last component = ticket)": run::show_answers(&out.answers), "reference_order": run::show_answers(&reference) }));
     }
@@ -135,7 +139,7 @@ pub fn eval(p: &Program, ctx: &Ctx) -> CaseInfo {
     }
     // non-trivial: >= 3 answers and the interleaving search visits them in another order
     if reference.len() >= 3 {
-        let outb = run::run(&with_ticket, Mode::Bfs, Limits { max_answers: 500, budget: 3_000_000 });
+        let outb = run::run(&with_ticket, Mode::Bfs, Limits { max_answers: 500.max(2 * max_ref), budget: 3_000_000.max(20_000 * max_ref as u64) });
         if outb.complete() {
             let mut bt: Vec<(Answer, Option<i64>)> = outb.answers.iter().map(|a| strip(a, n)).collect();
             bt.sort_by_key(|(_, t)| t.unwrap_or(i64::MAX));
@@ -167,6 +171,25 @@ fn run_family(bytes: &[u8], ctx: &Ctx) -> CaseInfo {
     eval(&p, ctx)
 }
 
+fn run_scale(bytes: &[u8], ctx: &Ctx) -> CaseInfo {
+    let mut s = Source::new(bytes);
+    let thorough = ctx.tier == Tier::Thorough;
+    let p = crate::gen::scale::search_program(&mut s, thorough, 1);
+    if std::env::var("PVH_SHOW").is_ok() {
+        eprintln!("SHOW {}", p.show());
+    }
+    let t0 = std::time::Instant::now();
+    let mut info = eval_with(&p, ctx, 4 * crate::gen::scale::cap(thorough) + 16);
+    if std::env::var("PVH_SLOW").is_ok() && t0.elapsed().as_millis() > 500 {
+        let d: String = p.show().chars().take(160).collect();
+        eprintln!("SLOW {:?} goals={} {}", t0.elapsed(), p.goal_count(), d);
+    }
+    truncate_sample(&mut info, 600);
+    let g = p.goal_count();
+    info.class(if g >= 256 { "goals>=256" } else if g >= 64 { "goals>=64" } else { "goals<64" });
+    info
+}
+
 fn w_reify() -> Option<String> {
     // dfs { cond { q == [1..12], q == 1, q == 2 } }
     let big = Term::ints(&(1..=12).collect::<Vec<i64>>());
@@ -192,9 +215,12 @@ fn fixed_nested(ctx: &Ctx) -> CaseInfo {
 pub fn def() -> PropertyDef {
     PropertyDef {
         id: "C05",
-        rule: "family S programs (nested cond/conjunction/fresh/closure, ==/!=, member/member1/append/rember/permute/distinct and harness recursive relations on literal lists; finite search tree by construction) wrapped in dfs{} with a ticket fngoal as last goal of the block. Oracle: reference depth-first interpreter, position by position: (a) the answer carrying ticket i equals the reference's i-th answer and tickets are 0..n-1 (order in which states leave the depth-first block), (b) the iterator yields the same order (suppressed only for the listed finding C05-reify-overtakes, and only when answers differ in cons-shape and (a) holds). Non-trivial = >=3 answers and the same program under interleaving search produces another ticket order; distinct = hash of the printed program",
+        rule: "family S programs (nested cond/conjunction/fresh/closure, ==/!=, member/member1/append/rember/permute/distinct and harness recursive relations on literal lists; finite search tree by construction) wrapped in dfs{} with a ticket fngoal as last goal of the block. Oracle: reference depth-first interpreter, position by position: (a) the answer carrying ticket i equals the reference's i-th answer and tickets are 0..n-1 (order in which states leave the depth-first block), (b) the iterator yields the same order (suppressed only for the listed finding C05-reify-overtakes, and only when answers differ in cons-shape and (a) holds). Non-trivial = >=3 answers and the same program under interleaving search produces another ticket order; distinct = hash of the printed program. Family `scale`: one disjunction of up to 400 (thorough 2000) clauses, up to 200 consecutive binary choice points pruned by constraints, or member / memberrev (recursive clause first) / append / zeros (non-tail recursion) / member1 / lenle / rember / downfrom / nrev over a literal list of up to 400 elements, alone, next to a small choice, or as one branch of a disjunction",
         assumptions: vec!["reference interpreter and its mirrored relation definitions are correct", "answers compared up to renaming and constraint equivalence over a finite universe"],
-        families: vec![Family { name: "search-dfs", max_len: 200, quick: 400_000, thorough: 8_000_000, run: run_family }],
+        families: vec![
+            Family { name: "search-dfs", max_len: 200, quick: 400_000, thorough: 8_000_000, run: run_family },
+            Family { name: "scale", max_len: 48, quick: 6_000, thorough: 100_000, run: run_scale },
+        ],
         fixed: vec![Fixed { name: "nested-cond-member-append", run: fixed_nested }],
         witnesses: vec![Witness { finding: FINDING_REIFY, run: w_reify }],
         exhaustive: None,
